@@ -102,8 +102,12 @@ func (x *Exec) step(fr *Frame, ins ssa.Instruction, st *State) []alt {
 	case *ssa.Store:
 		addr := x.val(fr, ins.Addr)
 		v := x.val(fr, ins.Val)
+		var old *Term
+		if c, ok := st.mem[addr.key]; ok {
+			old = c.val
+		}
 		x.store(st, addr, v, ins.Val.Type())
-		x.C.OnStore(x, st, fr, ins.Pos(), addr, v)
+		x.C.OnStore(x, st, fr, ins.Pos(), addr, v, old)
 		return one(st, nil)
 	case *ssa.Extract:
 		t := x.val(fr, ins.Tuple)
@@ -212,7 +216,21 @@ func (x *Exec) loadAlts(fr *Frame, st *State, addr *Term, typ types.Type, pos to
 			return one(st, mk("elem", "", typ, base, addr.Args[1]))
 		}
 	}
-	return one(st, x.load(st, addr, typ))
+	v := x.load(st, addr, typ)
+	if v.Op == "oneof" {
+		// the cell holds one of several values merged at a loop head: decide which
+		var alts []alt
+		for i, m := range v.Args {
+			s := st
+			if i < len(v.Args)-1 {
+				s = st.clone()
+			}
+			s.mem[addr.key] = cell{addr, m}
+			alts = append(alts, alt{st: s, val: m})
+		}
+		return alts
+	}
+	return one(st, v)
 }
 
 // lookup models m[k] on an abstract map: one alternative per entry that may
@@ -389,7 +407,7 @@ func (x *Exec) havocArgs(st *State, fr *Frame, site ssa.CallInstruction, callee 
 	siteT := mk("site", fr.ctx+"/"+siteID(fr, site), nil, x.curMark())
 	ws := getWriteSets(x.P)
 	for ai, a := range args {
-		if !(a.Op == "alloc" || a.Op == "field" || a.Op == "index" || ((a.Op == "param" || a.Op == "free") && isPointerTerm(a))) {
+		if !addressLike(a) {
 			continue
 		}
 		fields := ws.writtenFields(callee, site.Common(), ai)
@@ -401,6 +419,18 @@ func (x *Exec) havocArgs(st *State, fr *Frame, site ssa.CallInstruction, callee 
 			x.havoc(st, mk("field", f, nil, a), siteT)
 		}
 	}
+}
+
+// addressLike: the term denotes (a pointer to) an object whose content a
+// callee could change.
+func addressLike(t *Term) bool {
+	switch t.Op {
+	case "alloc", "field", "index":
+		return true
+	case "param", "free", "call", "extract", "init", "elem", "inst", "draw", "nonnil":
+		return isPointerTerm(t)
+	}
+	return false
 }
 
 func isPointerTerm(t *Term) bool {
